@@ -631,8 +631,10 @@ func (x *srun) s1(pv *pview, di int, ivs, nows, few []int64, cfg func(int64) min
 				panic(pan)
 			}
 			if !sent {
-				x.violate(fmt.Sprintf("sched/schedule/timer-callback-silent/%s", x.hc),
-					fmt.Sprintf("h=%d parent#%d rank %d: the mine timer fired with mining==1 but nothing was sent on timeToMineCh", h, pv.idx, di), *cur)
+				// the callback did not hand a MineInfo to the loop although mining == 1: the node will not
+				// mine (no statement of C13 is about that), but the window end cannot be observed either
+				cnt["sched_timer_callback_silent"]++
+				x.out["x:sched:timer-callback-silent"] = true
 				continue
 			}
 			cnt["sched_timers_fired"]++
@@ -711,6 +713,11 @@ func (x *srun) s2(views []*pview, pv *pview, di int, ivs, offs []int64, cfg func
 				if pan != nil {
 					panic(pan)
 				}
+				if stopped && di < 0 {
+					// a node that is not a deputy stopped its own miner: nothing in C13 is about that
+					x.out["x:life:start-gave-up:self="+w.sName[cur.Self]] = true
+					break
+				}
 				if stopped {
 					cnt["life_start_gave_up"]++
 					x.violate(fmt.Sprintf("sched/start/gave-up/%s/self=%s/parent=%s", x.hc, w.sName[cur.Self], pv.kind),
@@ -750,8 +757,8 @@ func (x *srun) s2(views []*pview, pv *pview, di int, ivs, offs []int64, cfg func
 						panic(pan)
 					}
 					if !sent {
-						x.violate(fmt.Sprintf("sched/%s/timer-callback-silent/%s", where, x.hc),
-							fmt.Sprintf("h=%d parent#%d rank %d step %s: the mine timer fired with mining==1 but nothing was sent on timeToMineCh", h, pcur.idx, di, cur.Step), *cur)
+						cnt["sched_timer_callback_silent"]++
+						x.out["x:sched:timer-callback-silent"] = true
 						break
 					}
 					if !x.checkArmed(where, pcur, di, schedAt, wait, end, *cur) {
@@ -762,8 +769,9 @@ func (x *srun) s2(views []*pview, pv *pview, di int, ivs, offs []int64, cfg func
 					pool.polls = 0
 					m.VerifSealBlock(end)
 					if len(ch.calls) != 1 {
-						x.violate(fmt.Sprintf("sched/seal/mine-block-calls/%s", x.hc),
-							fmt.Sprintf("h=%d parent#%d rank %d step %s: sealBlock called Chain.MineBlock %d times", h, pcur.idx, di, cur.Step, len(ch.calls)), *cur)
+						// not mining at all is not a statement of C13: recorded
+						cnt["life_seal_without_single_mine_block_call"]++
+						x.out[fmt.Sprintf("x:life:seal:mine-block-calls=%d", len(ch.calls))] = true
 						break
 					}
 					cnt["life_seals"]++
@@ -802,9 +810,9 @@ func (x *srun) s2(views []*pview, pv *pview, di int, ivs, offs []int64, cfg func
 					// MineBlock failed: the retry timer armed by the mine timer callback is pending
 					pend = vtask.Pending()
 					if len(pend) != 1 {
-						x.out[fmt.Sprintf("l:no-single-retry-timer:pending=%d", len(pend))] = true
-						x.violate(fmt.Sprintf("sched/retry/no-retry-timer/%s", x.hc),
-							fmt.Sprintf("h=%d parent#%d rank %d step %s: after the mine timer fired the pending timers are %v, want the retry timer", h, pcur.idx, di, cur.Step, pend), *cur)
+						// whether and when the miner tries again is not a statement of C13: recorded
+						cnt["life_no_single_retry_timer"]++
+						x.out[fmt.Sprintf("x:life:no-single-retry-timer:pending=%d", len(pend))] = true
 						break
 					}
 					rdur, good := timerMs(pend[0])
@@ -829,7 +837,7 @@ func (x *srun) s2(views []*pview, pv *pview, di int, ivs, offs []int64, cfg func
 						panic(pan)
 					}
 					if sent {
-						x.violate(fmt.Sprintf("sched/retry/sent-mine-info/%s", x.hc), "the retry timer callback sent on timeToMineCh", *cur)
+						x.out["x:life:retry-callback-sent-mine-info"] = true
 						break
 					}
 					cnt["life_retries_fired"]++
@@ -995,6 +1003,9 @@ func runSchedulePhase(r *core.Result) {
 				r.Note("schedule phase: counter %s is 0", k)
 			}
 		}
+	}
+	if c := r.Counters["sched_timer_callback_silent"]; c > 0 {
+		r.NotExhaustive(fmt.Sprintf("schedule phase: %d armed mine timers fired with mining==1 without sending a MineInfo, their window end could not be observed", c))
 	}
 	if !(inc && dec && eq) && r.Exhaustive {
 		r.NotExhaustive("schedule phase coverage self-check failed (deputy count increasing / decreasing / equal across a term change, timers armed and refused, first slot over, retry path)")
